@@ -32,8 +32,8 @@ AddViol(S) == viol \cup {<<c, tv.run>> : c \in {x \in S : <<x, tv.run>> \notin v
 Step(name) == l <= N /\ Ev.ev = name /\ l' = l + 1
 DocOf(j) == <<j[1], j[2], j[3]>>
 DocsOf(j) == [i \in 1..Len(j) |-> DocOf(j[i])]
-SetOf(s) == {s[i] : i \in DOMAIN s}
 NoDup(s) == Cardinality(SetOf(s)) = Len(s)
+SameDocs(a, b) == Len(a) = Len(b) /\ SetOf(a) = SetOf(b)   \* documents are distinct
 OpenHandles == {i \in DOMAIN handles : handles[i].open}
 SegDocs(ids) == Concat([i \in DOMAIN ids |-> IF ids[i] \in DOMAIN files THEN files[ids[i]] ELSE <<>>])
 \* what must be in a complete index: everything inserted, except that documents of an Insert call that
@@ -84,8 +84,9 @@ TPersistSeg ==
              /\ UNCHANGED <<snap, handles, pc, all, tv>>
              /\ viol' = AddViol(
                   (IF Has(Ev, "parse") THEN {"C08_offline_segment_unreadable"} ELSE {})
-                  \cup (IF flush /\ Bag(docs) # Bag(buffer) THEN {"C08_offline_batch_differs_from_inserted"} ELSE {})
-                  \cup (IF ~flush /\ Bag(docs) # Bag(SegDocs(mg.ids)) THEN {"C08_offline_merge_changed_content"} ELSE {})
+                  \cup (IF flush /\ ~SameDocs(docs, buffer) THEN {"C08_offline_batch_differs_from_inserted"} ELSE {})
+                  \cup (IF ~flush /\ ~(SetOf(docs) = UNION {SetOf(files[id]) : id \in SetOf(mg.ids) \cap DOMAIN files}
+                                   /\ Len(docs) = SumLen(SetOf(mg.ids) \cap DOMAIN files)) THEN {"C08_offline_merge_changed_content"} ELSE {})
                   \cup (IF ~O_NothingLost' THEN {"C08_offline_documents_lost"} ELSE {})
                   \cup (IF flush /\ docs # buffer THEN {"STRICT_offline_batch_order"} ELSE {})
                   \cup (IF ~flush /\ docs # SegDocs(mg.ids) THEN {"STRICT_offline_merge_order"} ELSE {})
